@@ -58,22 +58,14 @@ Definition fqueries_spec_ok (s : st) (f : list fobs) : bool :=
     && optz_eqb (fo_first o) (spec_first_unseen (links s) (fo_mb o))
     && forallb (fun kr => zlist_eqb (snd kr) (spec_search (links s) (fo_mb o) (fst kr))) (fo_search o)) f.
 
-(** a stored atom properly contains a queried flag (the guard of (b) fails) *)
-Definition query_risk (s : st) (f : list fobs) : bool :=
-  existsb (fun o =>
-    existsb (fun l =>
-      negb (no_proper_super_ci (lk_flags l) SEEN)
-      || existsb (fun kr => existsb (fun q => negb (no_proper_super (lk_flags l) q)) (key_atoms (fst kr))) (fo_search o))
-      (filter (in_mbox (fo_mb o)) (links s))) f.
-
 Definition b2n (b : bool) : nat := if b then 1%nat else 0%nat.
 
 (** result code:  1 views = model, 2 views = spec, 4 queries = model,
-    8 queries = spec, 16 a queried flag has a proper super-atom, 32*class *)
+    8 queries = spec, 32*class *)
 Definition judge (e : env) (s0 : st) (steps : list sstep) (f : list fobs) : nat :=
   let '(vm, sm) := steps_ok step e s0 steps in
   let '(vs, ss) := steps_ok spec_step e s0 steps in
   let vm := vm && fviews_ok sm f in
   let vs := vs && fviews_ok ss f in
   (b2n vm + 2 * b2n vs + 4 * b2n (fqueries_model_ok sm f) + 8 * b2n (fqueries_spec_ok ss f)
-   + 16 * b2n (query_risk sm f) + 32 * cls_code (hist_class e s0 (map (fun x => fst (fst x)) steps)))%nat.
+   + 32 * cls_code (hist_class e s0 (map (fun x => fst (fst x)) steps)))%nat.
